@@ -828,16 +828,16 @@ theorem written_slice (f h3 : Bytes) (rs : List (Nat × Nat)) (cs sigLen padding
 
 /-! ### what successful `plan` / `sign` say -/
 
-theorem plan_inv (f : Bytes) (hashSize entLen reqLen : Nat) (pl : Plan) (h : plan f hashSize entLen reqLen = .ok pl) :
-    scan f = .ok pl.m ∧
+theorem plan_inv (f : Bytes) (hashSize entLen reqLen : Nat) (pl : Plan) (h : planOrig f hashSize entLen reqLen = .ok pl) :
+    scanOrig f = .ok pl.m ∧
     patchSignature pl.m (f.take pl.m.consumed)
       (Int.tdiv (pl.m.codeSize * (20 + hashSize : Nat)) 4096 + (entLen + reqLen : Nat) + 16384) = .ok pl.po ∧
     pl.po.newHeader.length - pl.m.consumed ≤ f.length - pl.m.consumed ∧
     pl.stream = (pl.po.newHeader ++
         (f.drop (pl.m.consumed + (pl.po.newHeader.length - pl.m.consumed))).take
           (pl.m.codeSize - (pl.po.newHeader.length : Int)).toNat ++ zeros pl.po.padding).take pl.po.sigStart := by
-  unfold plan at h
-  cases hs : scan f with
+  unfold planOrig at h
+  cases hs : scanOrig f with
   | err e => rw [hs] at h; cases h
   | panic e => rw [hs] at h; cases h
   | diverge => rw [hs] at h; cases h
@@ -875,11 +875,11 @@ theorem signBlob_limit (p : SignParams) (stream : Bytes) (sg : Signed) (h : sign
     · cases h
     · cases h
 
-theorem sign_inv (f : Bytes) (p : SignParams) (so : SignOut) (h : sign f p = .ok so) :
-    ∃ hashSize entLen reqLen, plan f hashSize entLen reqLen = .ok so.plan ∧ so.signed.pages.limit = so.plan.stream.length ∧
+theorem sign_inv (f : Bytes) (p : SignParams) (so : SignOut) (h : signOrig f p = .ok so) :
+    ∃ hashSize entLen reqLen, planOrig f hashSize entLen reqLen = .ok so.plan ∧ so.signed.pages.limit = so.plan.stream.length ∧
       hashSize = hashSizeOf p.hash ∧ entLen = (p.entitlement.map (·.length)).getD 0 ∧
       reqLen = (p.requirements.map (·.length)).getD 0 := by
-  unfold sign at h
+  unfold signOrig at h
   split at h
   · cases h
   · cases h
@@ -995,7 +995,7 @@ theorem chainEnd_sum (loads : List Load) (pos : Nat) : chainEnd pos loads = pos 
 /-- **sign_then_locate_core**: both branches of `patchSignature`; the hypotheses are the fields of
     `Relic.Props.C01.Regular` -/
 theorem sign_then_locate_core (f : Bytes) (p : SignParams) (so : SignOut) (blob : Bytes) (loads : List Load)
-    (hs : sign f p = .ok so)
+    (hs : signOrig f p = .ok so)
     (accepts : newFile f = .ok (so.plan.m.be, loads))
     (oneSig : ∀ e ∈ loads, e.2.1 = 0x1d → e.1 = so.plan.m.loadCsStart ∧ e.2.2 = 16)
     (noSlack : so.plan.m.loadCsStart = 0 →
@@ -1134,7 +1134,7 @@ theorem sigAnswer_large (a b : Nat) (h : 10000000 < b) : sigAnswer a b = .err "t
     exists and its prefix is the hashed stream — but the locator refuses it.  With SHA-256 and no entitlements this is
     every image with `codeSize ≥ 786401832`. -/
 theorem large_signature_refused (f : Bytes) (p : SignParams) (so : SignOut) (blob : Bytes) (loads : List Load)
-    (hs : sign f p = .ok so)
+    (hs : signOrig f p = .ok so)
     (accepts : newFile f = .ok (so.plan.m.be, loads))
     (oneSig : ∀ e ∈ loads, e.2.1 = 0x1d → e.1 = so.plan.m.loadCsStart ∧ e.2.2 = 16)
     (noSlack : so.plan.m.loadCsStart = 0 →
@@ -1153,7 +1153,7 @@ theorem large_signature_refused (f : Bytes) (p : SignParams) (so : SignOut) (blo
 
 /-! ### evaluating `sign` on concrete images (after `scan` has been evaluated through `scan_eq_L`) -/
 
-/-- `plan` behind the scan -/
+/-- `planOrig` behind the scan -/
 def planFrom (f : Bytes) (m : Markers) (hashSize entLen reqLen : Nat) : Res Plan :=
   let est : Int := Int.tdiv (m.codeSize * (20 + hashSize : Nat)) 4096 + (entLen + reqLen : Nat) + 16384
   match patchSignature m (f.take m.consumed) est with
@@ -1168,11 +1168,11 @@ def planFrom (f : Bytes) (m : Markers) (hashSize entLen reqLen : Nat) : Res Plan
     let fromR := min rest.length (po.sigStart - po.newHeader.length)
     .ok ⟨m, po, stream, if m.sigLen ≠ 0 then some (((f.drop (m.consumed + extended)).drop fromR).take m.sigLen) else none⟩
 
-theorem plan_of_scan (f : Bytes) (m : Markers) (hashSize entLen reqLen : Nat) (h : scan f = .ok m) :
-    plan f hashSize entLen reqLen = planFrom f m hashSize entLen reqLen := by
-  unfold plan planFrom; rw [h]; rfl
+theorem plan_of_scan (f : Bytes) (m : Markers) (hashSize entLen reqLen : Nat) (h : scanOrig f = .ok m) :
+    planOrig f hashSize entLen reqLen = planFrom f m hashSize entLen reqLen := by
+  unfold planOrig planFrom; rw [h]; rfl
 
-/-- `sign` behind the plan -/
+/-- `signOrig` behind the plan -/
 def signFrom (p : SignParams) (r : Res Plan) : Res SignOut :=
   match r with
   | .err e => .err e
@@ -1190,8 +1190,8 @@ def signFrom (p : SignParams) (r : Res Plan) : Res SignOut :=
       | .panic s => .panic s
       | .diverge => .diverge
 
-theorem sign_of_scan (f : Bytes) (p : SignParams) (m : Markers) (h : scan f = .ok m) :
-    sign f p = signFrom p (planFrom f m (hashSizeOf p.hash) ((p.entitlement.map (·.length)).getD 0)
+theorem sign_of_scan (f : Bytes) (p : SignParams) (m : Markers) (h : scanOrig f = .ok m) :
+    signOrig f p = signFrom p (planFrom f m (hashSizeOf p.hash) ((p.entitlement.map (·.length)).getD 0)
       ((p.requirements.map (·.length)).getD 0)) := by
   rw [← plan_of_scan f m _ _ _ h]; rfl
 
@@ -1202,9 +1202,9 @@ def estOf (m : Markers) (p : SignParams) : Int :=
   Int.tdiv (m.codeSize * (20 + hashSizeOf p.hash : Nat)) 4096 +
     ((p.entitlement.map (·.length)).getD 0 + (p.requirements.map (·.length)).getD 0 : Nat) + 16384
 
-/-- a successful `sign` whose scan is known and whose old region (if any) is too small -/
-theorem sign_fresh_facts (f : Bytes) (p : SignParams) (so : SignOut) (m : Markers) (hs : sign f p = .ok so)
-    (hscan : scan f = .ok m) (hn : ¬ (m.sigLen : Int) ≥ estOf m p) :
+/-- a successful `signOrig` whose scan is known and whose old region (if any) is too small -/
+theorem sign_fresh_facts (f : Bytes) (p : SignParams) (so : SignOut) (m : Markers) (hs : signOrig f p = .ok so)
+    (hscan : scanOrig f = .ok m) (hn : ¬ (m.sigLen : Int) ≥ estOf m p) :
     so.plan.m = m ∧ Fresh m (f.take m.nextLc) (estOf m p) so.plan.po ∧
     HdrSpec f m so.plan.po.newHeader (freshSigStart m) (align (estOf m p).toNat 8)
       (fileszOf m (freshSigStart m) (align (estOf m p).toNat 8)) := by
@@ -1220,9 +1220,9 @@ theorem sign_fresh_facts (f : Bytes) (p : SignParams) (so : SignOut) (m : Marker
   have := S.nextLc
   exact ⟨hm, F, fresh_hdrSpec f m _ so.plan.po S.stopLe (by omega) F⟩
 
-/-- a successful `sign` whose scan is known and whose old region is big enough -/
-theorem sign_reuse_facts (f : Bytes) (p : SignParams) (so : SignOut) (m : Markers) (hs : sign f p = .ok so)
-    (hscan : scan f = .ok m) (hn : (m.sigLen : Int) ≥ estOf m p) :
+/-- a successful `signOrig` whose scan is known and whose old region is big enough -/
+theorem sign_reuse_facts (f : Bytes) (p : SignParams) (so : SignOut) (m : Markers) (hs : signOrig f p = .ok so)
+    (hscan : scanOrig f = .ok m) (hn : (m.sigLen : Int) ≥ estOf m p) :
     so.plan.m = m ∧ so.plan.po = ⟨f.take m.nextLc, m.sigLen, m.sigStart, 0, [⟨m.sigStart, m.sigLen, zeros m.sigLen⟩]⟩ := by
   obtain ⟨hashSize, entLen, reqLen, hpl, _, e1, e2, e3⟩ := sign_inv f p so hs
   subst e1; subst e2; subst e3
